@@ -331,4 +331,16 @@ example : pyrNeedsPadG 30 20 8 = true ∧ pyrBottomG 30 20 8 = 2 ∧ pyrRightG 3
 /-- non-vacuity: the sizes of the mip chain of a 8 × 6 image: 8×6, 4×3, 2×1, then the final averaging step -/
 example : mipSizesG 10 8 6 = [(8, 6), (4, 3), (2, 1), (1, 3)] := by decide
 
+/-- "finite everywhere": in both pooling-size maps the quantity handed to `acos` is a clamped dot product, so it lies in the domain
+    `[-1, 1]` of `acos` for EVERY gaze and pixel - also where the dot product of the two unit vectors rounds above 1 (finding F38: the
+    equirectangular map had no clamp and returned NaN at the pixel the gaze looks along); and the eccentricities are in `[0, π]` -/
+theorem C18_acos_arguments_in_domain (x : ℝ) : -1 ≤ Num.clamp x (-1) 1 ∧ Num.clamp x (-1) 1 ≤ 1 := by
+  rw [clamp_real]
+  exact ⟨le_min (le_max_right _ _) (by norm_num), min_le_right _ _⟩
+
+theorem C18_equi_eccentricity_range (a0 a1 : ℝ) (h w i j : Nat) :
+    0 ≤ equiEccentricityAt a0 a1 h w i j ∧ equiEccentricityAt a0 a1 h w i j ≤ Real.pi := by
+  simp only [equiEccentricityAt, num_acos]
+  exact ⟨Real.arccos_nonneg _, Real.arccos_le_pi _⟩
+
 end Odak
